@@ -339,8 +339,19 @@ func c16TokenRules(e *c16Env) {
 				okB = false
 			}
 		}
+		// Basic auth is attached unless BOTH parts are empty (a password-only / username-only credential is still sent)
+		if nB > 0 {
+			unE, _ := e.emptyTests(f, "Username")
+			pwE, _ := e.emptyTests(f, "Password")
+			bas := CallsTo(f, "(*net/http.Request).SetBasicAuth")
+			for _, sc := range c16SendCallsIn(f) {
+				if !MustPass(sc.(ssa.Instruction), newCut().Calls(bas).Edges(unE...)) || !MustPass(sc.(ssa.Instruction), newCut().Calls(bas).Edges(pwE...)) {
+					okB = false
+				}
+			}
+		}
 		c.Check(R, fn+"|basic-auth-is-username-then-password", f.Pos(), okB && nB > 0,
-			ifelse(okB && nB > 0, "SetBasicAuth(Credential.Username, Credential.Password)", "the token request's Basic auth does not carry (Username, Password) in that order"))
+			ifelse(okB && nB > 0, "SetBasicAuth(Credential.Username, Credential.Password), skipped only when both are empty", "the token request's Basic auth does not carry (Username, Password) in that order, or is skipped although one of them is set (a password-only credential is silently dropped and an anonymous token is requested)"))
 		var scopesP *ssa.Parameter
 		for _, p := range f.Params {
 			if strings.HasSuffix(p.Type().String(), "[]string") {
